@@ -21,3 +21,14 @@ template class hep::multi_channel_point2<double, vpinst::Map>;
 template class hep::discrete_distribution<std::size_t, double>;
 template hep::discrete_distribution<std::size_t, double>::discrete_distribution(std::vector<double>::const_iterator, std::vector<double>::const_iterator);
 template std::size_t hep::discrete_distribution<std::size_t, double>::operator()<vpinst::Rng>(vpinst::Rng&) const;
+namespace vpinst {
+typedef hep::plain_chkpt_with_rng<std::mt19937, double> PChk;
+typedef hep::vegas_chkpt_with_rng<std::mt19937, double> VChk;
+typedef hep::multi_channel_chkpt_with_rng<std::mt19937, double> MChk;
+struct PCb { bool operator()(PChk const&); };
+struct VCb { bool operator()(VChk const&); };
+struct MCb { bool operator()(MChk const&); };
+}
+template vpinst::PChk hep::plain<vpinst::Integrand&, vpinst::PChk, vpinst::PCb>(vpinst::Integrand&, std::vector<std::size_t> const&, vpinst::PChk, vpinst::PCb);
+template vpinst::VChk hep::vegas<vpinst::Integrand&, vpinst::VChk, vpinst::VCb>(vpinst::Integrand&, std::vector<std::size_t> const&, vpinst::VChk, vpinst::VCb);
+template vpinst::MChk hep::multi_channel<vpinst::MCIntegrand&, vpinst::MChk, vpinst::MCb>(vpinst::MCIntegrand&, std::vector<std::size_t> const&, vpinst::MChk, vpinst::MCb);
